@@ -15,7 +15,8 @@ EXPLANATION = (
     "two units, the leap predicates and the two epoch constants are checked against each other and against values derived from the Gregorian "
     "month lengths by the checker. R08.3: the all-day / all-second sentinels equal the all-ones value of their bit-fields, the bit-fields sum "
     "to 64. R08.4 sibling rule: a function that looks days up in a March-based cumulative table must carry the year for months < 3 "
-    "(contradiction between table and year arithmetic otherwise).")
+    "(contradiction between table and year arithmetic otherwise). R08.5 sibling pattern over all month-wrap sites of the calendar code: "
+    "wherever a month counter wraps (reset to 1/12, +/-= 12, %= 12) the same block adjusts the year.")
 NOT_DECIDED = ("correctness of echs_instant_fixup/add/diff and of the epoch conversions as functions of their inputs (value-level); "
                "the behaviour itself")
 TRUSTED = ["clang 14 parser/CFG builder", "echse-facts extractor", "python rule engines in /verif/sa", "python datetime (oracle for day counts)"]
